@@ -41,7 +41,8 @@ func (c *Ctx) resumeFrom(cs *CiscoCase, st *cisco.Conf, cut string) (key, msg st
 	}
 	if msg, p3 := c.Recompare(cs, n.Conf, nil); msg != "" {
 		in["script3"] = scriptText(p3.Script)
-		return "resume-recompare-nonempty|" + script2KindOn(p3, n.Conf), msg, in
+		k3 := script2KindOn(p3, n.Conf)
+		return "resume-recompare-nonempty|" + k3 + identicalGroupsNote(st, k3), msg, in
 	}
 	return "", "", in
 }
